@@ -32,6 +32,8 @@ func init() {
 				NeedCounters: []string{"attached", "refused-by-protocol"}},
 			{Name: fmt.Sprintf("dialer-xpub-hist-D%d", d), Mode: "hist", Reset: kit.ResetGlobals, Body: func() { dialerHist(d) },
 				NeedCounters: []string{"attached", "detached", "redialled"}},
+			{Name: fmt.Sprintf("two-dialers-xpair-hist-D%d", d-1), Mode: "hist", Reset: kit.ResetGlobals, Body: func() { twoDialersHist(d - 1) },
+				NeedCounters: []string{"attached", "refused-by-protocol", "redialled-after-refusal", "took-over"}},
 			{Name: "tcp-aborted-handshakes-then-peer", Mode: "enum", Reset: kit.ResetGlobals, Body: tcpAborted, NeedCounters: []string{"attached-after-aborted-handshake"}},
 			{Name: "listener-sched-attach-vs-drop", Mode: "sched", Bound: b, Reset: kit.ResetGlobals, Body: schedAttachDrop},
 		}
@@ -346,6 +348,69 @@ func dialerHist(depth int) {
 		last := w.ep.PipeAt(w.ep.NumPipes() - 1)
 		if last != nil && !last.Alive() && vsched.PendingTimers() == 0 {
 			kit.Failf("dialer-gave-up", "the last connection has gone and no redial is scheduled")
+		}
+	})
+	w.finish()
+}
+
+// twoDialersHist: a one-peer pattern (xpair) with two dialers to the same address: one connection
+// is attached, every connection the other dialer makes is refused by the protocol - no Attached, no
+// Detached, no RemovePipe, the connection closed - and that dialer carries on redialling, so that
+// when the attached connection goes one of the two takes over.
+func twoDialersHist(depth int) {
+	w := newWorld(xpair.NewProtocol, "vt://dl2")
+	w.dialer = true
+	w.ep = vt.Get("dl2")
+	w.ep.Script(vt.DialOK)
+	_ = w.sock.SetOption(mangos.OptionReconnectTime, 100*time.Millisecond)
+	_ = w.sock.SetOption(mangos.OptionMaxReconnectTime, 100*time.Millisecond)
+	for i := 0; i < 2; i++ {
+		if err := w.sock.DialOptions("vt://dl2", map[string]interface{}{mangos.OptionDialAsynch: true}); err != nil {
+			kit.Failf("setup", "Dial: %s", kit.ErrName(err))
+		}
+		kit.Quiesce()
+	}
+	w.settle()
+	attached := func() int {
+		n := 0
+		for i, st := range w.list {
+			if vp := w.ep.PipeAt(i); st.attached == 1 && vp != nil && vp.Alive() {
+				n++
+			}
+		}
+		return n
+	}
+	events := func() []kit.Event {
+		var evs []kit.Event
+		for i, st := range w.list {
+			i, st := i, st
+			vp := w.ep.PipeAt(i)
+			if st.attached == 1 && vp != nil && vp.Alive() {
+				evs = append(evs, kit.Event{Name: "peer-drop", Run: func() { vp.DropNow() }})
+				evs = append(evs, kit.Event{Name: "app-close", Run: func() { kit.Must("Pipe.Close", func() { _ = st.p.Close() }) }})
+			}
+		}
+		evs = append(evs, kit.Event{Name: "advance", Run: func() {
+			before, had := w.ep.NumPipes(), attached()
+			kit.Sleep(250 * time.Millisecond)
+			kit.Quiesce()
+			if w.ep.NumPipes() == before {
+				kit.Failf("dialer-gave-up-after-refusal", "two dialers, one slot (%d attached): in 250ms (ReconnectTime 100ms) no further connection was made - the dialer whose connection was refused by the protocol stopped redialling", had)
+			}
+			kit.Count("redialled-after-refusal")
+			if had == 0 {
+				if attached() != 1 {
+					kit.Failf("no-takeover", "nothing was attached, both dialers can connect, 250ms later %d connection(s) are attached", attached())
+				}
+				kit.Count("took-over")
+			}
+		}})
+		return evs
+	}
+	kit.Hist(depth, events, func() {
+		w.settle()
+		if n := attached(); n > 1 {
+			kit.Failf("two-attached", "%d connections attached to a one-peer pattern", n)
 		}
 	})
 	w.finish()
